@@ -35,13 +35,21 @@ def make_diff(rng):
     lines = []
     if rng.random() < 0.4:
         lines += ['--- a/file', '+++ b/file']
-    for _ in range(rng.choice([1, 1, 2, 4])):
+    nh = rng.choice([1, 1, 2, 4, 0])
+    if nh == 0:
+        # a diff without any hunk (rename / mode change only, or plain garbage): parses, counts 0/0/0
+        lines += rng.choice([['diff --git a/x b/y', 'similarity index 100%', 'rename from x', 'rename to y'],
+                             ['old mode 100644', 'new mode 100755'], ['nothing here']])
+    for _ in range(nh):
         if lines and rng.random() < 0.3:
             lines += [rng.choice(['diff --git a b', '', 'Index: x', 'garbage', '-- not a hunk line'])]
         lines += [l.decode('latin-1') for l in gen_hunk(rng)]
     if r < 0.22:
         # unparsable: cut the last hunk short or corrupt a line inside a hunk
-        k = max(i for i, l in enumerate(lines) if l.startswith('@@ -'))
+        ks = [i for i, l in enumerate(lines) if l.startswith('@@ -')]
+        if not ks:
+            return make_diff(rng)
+        k = max(ks)
         if len(lines) - k > 2:
             lines = lines[:-1]
         else:
